@@ -18,12 +18,16 @@ using namespace IMATH_NAMESPACE;
 namespace
 {
 
-// calibrated constants, in units of eps resp. eps*max|A| (measured worst ratios: lib/props.d/c12.py)
-const LD C_SVD_ORTH = 100; // the contract of upstream's own test (testTinySVD.cpp: 100 eps)
-const LD C_SVD_REC  = 100;
-const LD C_EIG_ORTH = 100;
-const LD C_EIG_REC  = 100;
-const LD C_VEC      = 100;
+// calibrated constants, in units of eps resp. eps*max|A|.  Worst ratios observed on the pristine tree
+// (thorough tier): SVD 3x3 orthonormality 13.7 / recompose 20.8, SVD 4x4 23.4 / 59.2 (antisymmetric
+// matrices, repeated singular values); eigen 3x3 7.7 / 9.0, 4x4 17.3 / 18.2; eigenvectors: unit
+// length 12.8, residual 6.0, extremeness 1.1.  Bounds are >= 8x those.  (Upstream's own tests use
+// 100 eps for orthonormality and 10 (3x3) / 100 (4x4) eps*max|A| for the reconstruction.)
+template <int N> struct Cn;
+template <> struct Cn<3> { static constexpr long double svd_orth = 128, svd_rec = 192, eig = 100; };
+template <> struct Cn<4> { static constexpr long double svd_orth = 256, svd_rec = 512, eig = 192; };
+const LD C_VEC     = 128; // unit length (eps), eigen-residual (eps*max|A|)
+const LD C_EXTREME = 16;  // | |lambda| - extreme |eigenvalue| | / (eps*max|A|)
 
 template <class T> LD epsT () { return (LD) std::numeric_limits<T>::epsilon (); }
 
@@ -164,8 +168,8 @@ sub_svd (Ctx& c, uint64_t idx)
     LD ou = orth_err_cols (u) / eps, ov = orth_err_cols (v) / eps;
     c.worst ("U_orthonormality/eps", (double) ou, idx, [&] { return Obj ().kv ("class", cls).str (); });
     c.worst ("V_orthonormality/eps", (double) ov, idx, [&] { return Obj ().kv ("class", cls).str (); });
-    if (!(ou <= C_SVD_ORTH)) c.fail (fn + ":U_not_orthonormal", idx, describe ("max|U^T U - I| / eps", ou));
-    if (!(ov <= C_SVD_ORTH)) c.fail (fn + ":V_not_orthonormal", idx, describe ("max|V^T V - I| / eps", ov));
+    if (!(ou <= Cn<N>::svd_orth)) c.fail (fn + ":U_not_orthonormal", idx, describe ("max|U^T U - I| / eps", ou));
+    if (!(ov <= Cn<N>::svd_orth)) c.fail (fn + ":V_not_orthonormal", idx, describe ("max|V^T V - I| / eps", ov));
     // U diag(S) V^T == A
     LD rec = maxabs ([&] { Mat<N> d = udvt (u, s, v); for (int i = 0; i < N; ++i) for (int j = 0; j < N; ++j) d[i][j] -= a[i][j]; return d; }());
     if (amax == 0)
@@ -176,7 +180,7 @@ sub_svd (Ctx& c, uint64_t idx)
     {
         LD q = rec / (eps * amax);
         c.worst ("recompose/(eps*max|A|)", (double) q, idx, [&] { return Obj ().kv ("class", cls).kv ("flag", flag).str (); });
-        if (!(q <= C_SVD_REC)) c.fail (fn + ":recompose", idx, describe ("max|U diag(S) V^T - A| / (eps max|A|)", q));
+        if (!(q <= Cn<N>::svd_rec)) c.fail (fn + ":recompose", idx, describe ("max|U diag(S) V^T - A| / (eps max|A|)", q));
     }
     // ordering and signs
     int lastpos = flag ? N - 1 : N; // entries [0,lastpos) must be >= 0
@@ -292,7 +296,7 @@ sub_eigen (Ctx& c, uint64_t idx)
     if (!fin) { c.fail (fn + ":non_finite_output", idx, describe ("NaN/inf in S or V", 0)); return; }
     LD ov = orth_err_cols (v) / eps;
     c.worst ("V_orthonormality/eps", (double) ov, idx, [&] { return Obj ().kv ("class", cls).str (); });
-    if (!(ov <= C_EIG_ORTH)) c.fail (fn + ":V_not_orthonormal", idx, describe ("max|V^T V - I| / eps", ov));
+    if (!(ov <= Cn<N>::eig)) c.fail (fn + ":V_not_orthonormal", idx, describe ("max|V^T V - I| / eps", ov));
     LD rec = maxabs ([&] { Mat<N> d = udvt (v, s, v); for (int i = 0; i < N; ++i) for (int j = 0; j < N; ++j) d[i][j] -= a[i][j]; return d; }());
     if (amax == 0)
     {
@@ -302,7 +306,7 @@ sub_eigen (Ctx& c, uint64_t idx)
     {
         LD q = rec / (eps * amax);
         c.worst ("recompose/(eps*max|A|)", (double) q, idx, [&] { return Obj ().kv ("class", cls).str (); });
-        if (!(q <= C_EIG_REC)) c.fail (fn + ":recompose", idx, describe ("max|V diag(S) V^T - A| / (eps max|A|)", q));
+        if (!(q <= Cn<N>::eig)) c.fail (fn + ":recompose", idx, describe ("max|V diag(S) V^T - A| / (eps max|A|)", q));
     }
     if (c.verbose) std::fprintf (stderr, "[replay] class=%s orthV=%Lg rec=%Lg (eps units)\n", cls, ov, amax > 0 ? rec / (eps * amax) : rec);
     if (idx % 997 < (uint64_t) NSYM) c.sample (cls, [&] { return Obj ().raw ("A", mat_json (A0)).arr ("S", &S[0], (size_t) N).str (); });
@@ -355,7 +359,7 @@ sub_eigvec (Ctx& c, uint64_t idx)
         c.worst (which ? "max.residual/(eps*max|A|)" : "min.residual/(eps*max|A|)", (double) qr, idx, [&] { return Obj ().kv ("class", cls).str (); });
         c.worst (which ? "max.extremeness/(eps*max|A|)" : "min.extremeness/(eps*max|A|)", (double) qe, idx, [&] { return Obj ().kv ("class", cls).str (); });
         if (!(qr <= C_VEC)) c.fail (fn + ":not_an_eigenvector", idx, describe ("max|A v - (v.Av) v| / (eps max|A|)", qr));
-        if (!(qe <= C_VEC)) c.fail (fn + (which ? ":not_the_max_abs_eigenvalue" : ":not_the_min_abs_eigenvalue"), idx, describe ("| |lambda| - extreme |eigenvalue| | / (eps max|A|)", qe));
+        if (!(qe <= C_EXTREME)) c.fail (fn + (which ? ":not_the_max_abs_eigenvalue" : ":not_the_min_abs_eigenvalue"), idx, describe ("| |lambda| - extreme |eigenvalue| | / (eps max|A|)", qe));
         if (c.verbose) std::fprintf (stderr, "[replay] %s class=%s lambda=%Lg extreme=%Lg residual=%Lg extremeness=%Lg (eps*max|A| units)\n", fn.c_str (), cls, lam, which ? emax : emin, qr, qe);
     }
 }
@@ -382,15 +386,15 @@ const char* const SYM_SPACE = "symmetric NxN matrices from 14 classes (Gaussian,
 
 } // namespace
 
-MON_SUB_IDX (svd33f, "jacobiSVD33_float", 640000, 16000000).req (GEN_REQ).over (SVD_SPACE);
-MON_SUB_IDX (svd33d, "jacobiSVD33_double", 640000, 16000000).req (GEN_REQ).over (SVD_SPACE);
-MON_SUB_IDX (svd44f, "jacobiSVD44_float", 480000, 12000000).req (GEN_REQ).over (SVD_SPACE);
-MON_SUB_IDX (svd44d, "jacobiSVD44_double", 480000, 12000000).req (GEN_REQ).over (SVD_SPACE);
-MON_SUB_IDX (eig33f, "jacobiEigenSolver33_float", 560000, 14000000).req (SYM_REQ).over (SYM_SPACE);
-MON_SUB_IDX (eig33d, "jacobiEigenSolver33_double", 560000, 14000000).req (SYM_REQ).over (SYM_SPACE);
-MON_SUB_IDX (eig44f, "jacobiEigenSolver44_float", 420000, 11200000).req (SYM_REQ).over (SYM_SPACE);
-MON_SUB_IDX (eig44d, "jacobiEigenSolver44_double", 420000, 11200000).req (SYM_REQ).over (SYM_SPACE);
-MON_SUB_IDX (vec33f, "minmaxEigenVector33_float", 280000, 11200000).req (SYM_REQ).over (SYM_SPACE);
-MON_SUB_IDX (vec33d, "minmaxEigenVector33_double", 280000, 11200000).req (SYM_REQ).over (SYM_SPACE);
-MON_SUB_IDX (vec44f, "minmaxEigenVector44_float", 210000, 11200000).req (SYM_REQ).over (SYM_SPACE);
-MON_SUB_IDX (vec44d, "minmaxEigenVector44_double", 210000, 11200000).req (SYM_REQ).over (SYM_SPACE);
+MON_SUB_IDX (svd33f, "jacobiSVD33_float", 1280000, 24000000).req (GEN_REQ).over (SVD_SPACE);
+MON_SUB_IDX (svd33d, "jacobiSVD33_double", 1280000, 24000000).req (GEN_REQ).over (SVD_SPACE);
+MON_SUB_IDX (svd44f, "jacobiSVD44_float", 960000, 18000000).req (GEN_REQ).over (SVD_SPACE);
+MON_SUB_IDX (svd44d, "jacobiSVD44_double", 960000, 18000000).req (GEN_REQ).over (SVD_SPACE);
+MON_SUB_IDX (eig33f, "jacobiEigenSolver33_float", 1120000, 21000000).req (SYM_REQ).over (SYM_SPACE);
+MON_SUB_IDX (eig33d, "jacobiEigenSolver33_double", 1120000, 21000000).req (SYM_REQ).over (SYM_SPACE);
+MON_SUB_IDX (eig44f, "jacobiEigenSolver44_float", 840000, 16800000).req (SYM_REQ).over (SYM_SPACE);
+MON_SUB_IDX (eig44d, "jacobiEigenSolver44_double", 840000, 16800000).req (SYM_REQ).over (SYM_SPACE);
+MON_SUB_IDX (vec33f, "minmaxEigenVector33_float", 560000, 16800000).req (SYM_REQ).over (SYM_SPACE);
+MON_SUB_IDX (vec33d, "minmaxEigenVector33_double", 560000, 16800000).req (SYM_REQ).over (SYM_SPACE);
+MON_SUB_IDX (vec44f, "minmaxEigenVector44_float", 420000, 12600000).req (SYM_REQ).over (SYM_SPACE);
+MON_SUB_IDX (vec44d, "minmaxEigenVector44_double", 420000, 12600000).req (SYM_REQ).over (SYM_SPACE);
